@@ -8,7 +8,7 @@ from semcheck import run_check
 from semdiff import SemDiff
 from sqlutil import Rng
 
-FEATS = {"case", "inlist"}
+FEATS = {"case", "inlist", "distinct_from"}
 
 
 def subst(e, row, types):
@@ -77,6 +77,19 @@ def truth_tables(sd, ck):
         qs.append(("project", [("col", 0), (op, ("col", 1), ("lit", 1, INT)), (op, ("lit", None, INT), ("col", 2))], ("scan", "t0")))     # constant-array operands
     qs.append(("project", [("col", 0), ("between", ("col", 1), ("col", 2), ("lit", 1, INT)), ("in", ("col", 1), [("lit", 0, INT), ("lit", None, INT), ("col", 2)]), ("neg", ("col", 1))], ("scan", "t0")))
     sd.check(db, qs, [("opt_on", []), ("opt_off", ["SET enable_optimizer TO false"])])
+    # IS [NOT] DISTINCT FROM: all type classes, with the left / right / both / neither column free of NULLs in the batch
+    # (the kernels have an all-valid fast path that depends on each input's validity separately)
+    for lnull, rnull in ((False, True), (True, False), (True, True), (False, False)):
+        for ty, vals in ((BOOL, [True, False]), (INT, [0, 1, -1]), (STR, ["", "a", "aaaaaaaaaaaaa"])):
+            lv = vals + ([None] if lnull else [])
+            rv = vals + ([None] if rnull else [])
+            rows = [[i, a, b] for i, (a, b) in enumerate(itertools.product(lv, rv))]
+            db = {"t0": ([INT, ty, ty], rows)}
+            qs = [("project", [("col", 0), ("isdistinct", ("col", 1), ("col", 2)), ("isnotdistinct", ("col", 1), ("col", 2)), ("isdistinct", ("col", 2), ("col", 1))], ("scan", "t0")),
+                  ("filter", ("isnotdistinct", ("col", 1), ("col", 2)), ("scan", "t0")),
+                  ("project", [("col", 0), ("isdistinct", ("col", 1), ("lit", None, ty)), ("isnotdistinct", ("lit", None, ty), ("col", 2))], ("scan", "t0")),
+                  ("values", [[("lit", i, INT), ("isdistinct", ("lit", a, ty), ("lit", b, ty))] for i, a, b in rows])]
+            sd.check(db, qs, [("opt_on", [])])
     svals = [None, "", "a", "ab", "b", "é", "aaaaaaaaaaaaa", "aaaaaaaaaaaab"]
     srows = [[i, a, b] for i, (a, b) in enumerate(itertools.product(svals, svals))]
     db = {"t0": ([INT, STR, STR], srows)}
